@@ -36,6 +36,8 @@ struct RefInfo {
 RefInfo ref_analyse(const Dense &A, bool want_inverse);
 // solve A X = B (nrhs columns, column-major n x nrhs) in long double with partial pivoting
 bool ref_solve(const Dense &A, const std::vector<cld> &B, int nrhs, std::vector<cld> &X);
+// true componentwise relative backward error of X per right-hand side (max_i |r_i| / (|A||x|+|b|)_i); optionally the smallest positive denominator
+std::vector<ld> true_berr(const Dense &A, const std::vector<cld> &B, const std::vector<cld> &X, int nrhs, bool use_abs1 = false, std::vector<ld> *min_pos_den = nullptr);
 
 // C09
 void check_structure(const LUDump &d, const std::vector<int> &perm_r, const std::vector<int> &perm_c, std::vector<std::string> &errs);
@@ -60,7 +62,6 @@ void check_solve(const Dense &Aeff, bool etrans, const std::vector<int> &perm_r,
                  const std::vector<cld> &B, const std::vector<cld> &X, int nrhs, int prec, std::vector<std::string> &errs, ld *max_ratio);
 
 // componentwise relative backward error of X for op(A) X = B  (Oettli-Prager), per column
-std::vector<ld> true_berr(const Dense &Aeff, const std::vector<cld> &B, const std::vector<cld> &X, int nrhs, bool use_abs1 = false);
 
 // structural rank of the leading k columns for every k (Hopcroft-Karp would be overkill at these sizes: augmenting paths)
 // returns the smallest k (1-based) such that the first k columns (in the given column order) have structural rank < k, or 0
